@@ -199,3 +199,41 @@ def symbol_store(ctx, prog):
         ctx.ob(R, "parse_block_hash_from_bytes call in %s writes into a fresh (all-zero) object" % g.short, ok,
                "destination root %s = %s" % (show(root), show(org)), g.loc(t["sp"]))
     ctx.floor(R, len(cs), 2, "call sites of parse_block_hash_from_bytes")
+
+
+def strict_lookahead(ctx, prog):
+    """strict parser only: when the take(N)-bounded iterator runs dry (`!has_char`) the next raw byte is always re-fetched
+    from bytes[index..]; the re-fetch must not depend on anything else (e.g. on how many symbols were stored)"""
+    f = prog.fn("hash::algorithms::parse_block_hash_from_bytes")
+    sy = Sym(f)
+    has_take = any(callee_of(t).endswith("Iterator::take") for i, t in f.calls())
+    if not has_take:
+        return
+    ctx.visit(f)
+    sites = []
+    for i, t in f.calls():
+        if callee_of(t).endswith("::next"):
+            src = sy.origin(strip(sy.operand(t["args"][0])))
+            txt = canon(src)
+            if "RangeFrom" in txt and "index" in txt:
+                sites.append((i, t))
+    ok = len(sites) == 1
+    why = "%d look-ahead sites" % len(sites)
+    if ok:
+        i, t = sites[0]
+        bad = []
+        seen_has_char = False
+        for c in path_conds(f, sy, i):
+            e = c[0]
+            if e[0] == "discr":
+                continue
+            a = bool_atom(c)
+            if a and a[0] == "truth" and a[1][0] == "local" and a[1][2] == "has_char":
+                seen_has_char = seen_has_char or (a[2] is False)
+                continue
+            if a and a[0] == "truth" and a[1][0] == "local":
+                continue  # compiler temporaries of the loop-exit plumbing
+            bad.append(G.show_atom(G.atoms([c])[0]))
+        ok = seen_has_char and not bad
+        why = "look-ahead guarded by !has_char%s" % ("" if not bad else " AND extra condition(s): %s" % "; ".join(bad))
+    ctx.ob("SA-GUARD", "strict parser: the look-ahead byte is re-fetched exactly when the bounded iterator ran dry (no other condition)", ok, why, f.loc(sites[0][1]["sp"]) if sites else f.loc())
